@@ -101,6 +101,25 @@ func seqProfile(prop, tier string) *SeqProfile {
 		return nil
 	}
 	p.KF = openKF(prop)
+	searchDesign := DesignRun{Module: "Search.tla", Cfg: tierS(tier, "search_q.cfg", "search_t.cfg"), Workers: 4, Timeout: 15 * time.Minute,
+		Note: "Search.tla: literal transcriptions of the binary searches = their declarative meaning for all small arrays and probes"}
+	searchExtra := func(fns ...string) func(*SeqRun) {
+		return func(r *SeqRun) {
+			if r.Tier == "thorough" {
+				runSearchCases(r, fns, 10, 11, 5)
+			} else {
+				runSearchCases(r, fns, 7, 8, 5)
+			}
+		}
+	}
+	switch prop {
+	case "C03":
+		p.Extra = searchExtra("index.Consume", "segment.Consume")
+	case "C04":
+		p.Extra = searchExtra("index.Get", "segment.Get")
+	case "C10":
+		p.Extra = searchExtra("index.Time")
+	}
 	switch prop {
 	case "C01", "C02", "C03", "C04", "C12":
 		p.Design, p.GenSpec = segDesign(tier, "core"), segGen(tier, "core", false, false)
@@ -108,6 +127,9 @@ func seqProfile(prop, tier string) *SeqProfile {
 		p.Design, p.GenSpec = segDesign(tier, "keys"), segGen(tier, "keys", true, false)
 	case "C10":
 		p.Design, p.GenSpec = segDesign(tier, "times"), segGen(tier, "times", false, true)
+	}
+	if prop == "C03" || prop == "C04" || prop == "C10" {
+		p.Design = append(p.Design, searchDesign)
 	}
 	return p
 }
